@@ -195,6 +195,11 @@ func C11(e *Env) {
 	c11Unmarshal(e)
 	ruleE(e, "R11.4")
 	c11Sanitise(e)
+	mergeLiteralRule(e, "mergeService", "Service")
+	r.Rule("R09.1", "the todo flag (which exempts a service from validation) is merged like every scalar attribute, later non-nil wins (shared with C09)", 11)
+	r.Rule("R09.1c", "behaviour classes of the merge combinators (shared with C09)", 2)
+	dereferenceRule(e, "R13.7")
+	r.Rule("R13.7", "ptr.Dereference: an explicit todo: false is not mistaken for unset (shared with C13)", 1)
 	c02ResolverChain(e, "R02.1")
 	c03ParamRules(e, "R03.4")
 	r.Rule("R02.1", "which grammar applies in which position is wiring: the argument chain recognises every documented form once, the primitive chain (used for parameters) none of the service/tag/value/container forms (shared with C02)", 8)
@@ -1189,11 +1194,30 @@ func c11Unmarshal(e *Env) {
 		r.Undecide("R11.9", inputRel+".Tag.UnmarshalYAML", "anchor not found")
 	}
 	c05Keywords(e)
+	isPrimitiveRule(e, "R11.9")
+}
+
+func keysOf(m map[string]bool) []string {
+	var s []string
+	for k := range m {
+		s = append(s, k)
+	}
+	sort.Strings(s)
+	return s
+}
+
+// c11Sanitise: R11.7 / R14.3 — every import reference handed to the alias table was sanitised.
+var c11Sanitise = func(e *Env) {}
+
+// isPrimitiveRule: types.IsPrimitive returns true for nil and exactly the scalar kinds YAML produces.
+func isPrimitiveRule(e *Env, rule string) {
+	r := e.R
+	key := ""
 	// IsPrimitive kinds
 	fd, pk := e.P.Decl("internal/pkg/types", "IsPrimitive")
 	key = "internal/pkg/types.IsPrimitive"
 	if fd == nil {
-		r.Undecide("R11.9", key, "anchor not found")
+		r.Undecide(rule, key, "anchor not found")
 		return
 	}
 	want := map[string]bool{"String": true, "Bool": true, "Int": true, "Int8": true, "Int16": true, "Int32": true, "Int64": true,
@@ -1234,24 +1258,12 @@ func c11Unmarshal(e *Env) {
 		return true
 	})
 	for k := range want {
-		r.Check(got[k], "R11.9", key+"#kind:"+k, "reflect."+k+" is a primitive (YAML scalars of this kind are accepted as parameters and arguments)")
+		r.Check(got[k], rule, key+"#kind:"+k, "reflect."+k+" is a primitive (YAML scalars of this kind are accepted as parameters and arguments)")
 	}
 	for k := range got {
 		if !want[k] {
-			r.Violate("R11.9", key+"#kind:"+k, "a non-scalar kind is accepted as primitive: it reaches the exporter / token code unvalidated", nil)
+			r.Violate(rule, key+"#kind:"+k, "a non-scalar kind is accepted as primitive: it reaches the exporter / token code unvalidated", nil)
 		}
 	}
-	r.Check(nilOK, "R11.9", key+"#nil", "null is a primitive")
+	r.Check(nilOK, rule, key+"#nil", "null is a primitive")
 }
-
-func keysOf(m map[string]bool) []string {
-	var s []string
-	for k := range m {
-		s = append(s, k)
-	}
-	sort.Strings(s)
-	return s
-}
-
-// c11Sanitise: R11.7 / R14.3 — every import reference handed to the alias table was sanitised.
-var c11Sanitise = func(e *Env) {}
